@@ -10,6 +10,7 @@ import Driver.C13
 import Driver.C19
 import Driver.C15
 import Driver.C14
+import Driver.C12
 open Lean Driver
 
 def dispatch (p : String) (inp impl : Json) : CaseResult :=
@@ -25,6 +26,7 @@ def dispatch (p : String) (inp impl : Json) : CaseResult :=
   | "C19" => C19.handle inp impl
   | "C15" => C15.handle inp impl
   | "C14" => C14.handle inp impl
+  | "C12" => C12.handle inp impl
   | "C03" => Signer.handleC03 inp impl
   | _ => { model := Json.null, spec := false, why := "unknown property " ++ p }
 
